@@ -168,6 +168,26 @@ ADDED = {
 }
 
 
+# clauses added in seeding rounds 3 and 4 (appended to the level text)
+ADDED2 = {
+    "C01": " Also decided: every serialising adaptation of ActionTypeHint.serialize runs inside dump_kwargs_context; dict_kwargs popped by adapt_class_type is restored on the serialising branch; the registered serializer only sees values of the registered class; the yaml classes are the Safe* ones; header comments are chosen by format name and never written for JSON; the JSON fallback looks at stripped text.",
+    "C02": " Also decided: the equals-default shortcut is reachable on the parsing path only for text; every root type accepted at declaration is tested for by an arm of adapt_typehints (exhaustiveness over the origin tables evaluated from source).",
+    "C04": " Also decided: only merge_config folds two namespaces with a bare update; an append tries list-typed Union members first (origin tables); parse_object applies the object after cfg_base was merged; apply_appends uses the flattened key view.",
+    "C05": " Also decided: list-valued options are decided as argparse does (integer clause folded over {0,1,2,3}); leaf-arm steps after the load are not conditioned on the value having been text; the omegaconf scalar short-cut covers every yaml scalar type.",
+    "C06": " Also decided: a spec that gets an inherited class_path keeps all its keys; is_meta_key tests the leaf component; keys of a moved parser (required keys, dests) use the dest form of the option name.",
+    "C09": " Also decided (E5): no entry point writes the declared default of an action or anything inside it.",
+    "C10": " Also decided: text whose loaded form is text stays as written; both normalisation passes of parse_object are unconditional; metadata is never popped without being remembered.",
+    "C11": " Also decided: clash_names is the whole of dir(Namespace); the leaf test of _parse_required_key is total; as_dict converts containers element for element.",
+    "C12": " Also decided: classmethods are recognised through the MRO.",
+    "C14": " Also decided: listing filters never prune the subclass walk; private init parameters are skipped only when optional.",
+    "C15": " Also decided: is_mapping_typehint tests the type's origin; link targets below a mapping entry are narrowed by the entry key only.",
+    "C16": " Also decided: nested links are re-declared on the per-class parser unconditionally.",
+    "C17": " Also decided: the names handed back are exactly the chosen one; mode parameters reach nested levels unchanged; parser-wide settings are pushed down through the property; intermediate folds (default config files, --cfg items) do not pick a subcommand.",
+    "C19": " Also decided: path type check is jsonargparse's Path; the config path is returned as read; the original text of a value is not re-interpreted inside the directory of the file it names; configurations read from files are merged inside the file's directory.",
+    "C20": " Also decided: a deserializer annotated with a return class returns the registered class; RegisteredType.deserializer re-raises as ValueError.",
+}
+
+
 def main():
     checks = []
     for pid in ALL:
@@ -176,6 +196,8 @@ def main():
         tech, text, note, ref = CLAIMED[pid]
         if pid in ADDED:
             tech, text = tech + ADDED[pid][0], text + ADDED[pid][1]
+        if pid in ADDED2:
+            text = text + ADDED2[pid]
         checks.append(
             {
                 "property_id": pid,
